@@ -31,8 +31,9 @@ ASSUMPTIONS = [
     "default delimiter ':' only: neither chain nor get_subconverter propagates a delimiter and the statement is silent on it",
 ]
 
-P_POOL = ["a", "A", "b", "B", "ab", "c", "", "é", "C"]
-U_POOL = ["u/", "U/", "u/a", "v#", "w/", "", "x:", "V#", "u/a_"]
+# incl. pairs that are equal up to case but differ in LENGTH (sharp s / SS, fi ligature / FI)
+P_POOL = ["a", "A", "b", "B", "ab", "c", "", "é", "C", "stra\u00dfe", "STRASSE", "\ufb01", "FI"]
+U_POOL = ["u/", "U/", "u/a", "v#", "w/", "", "x:", "V#", "u/a_", "u/\u00df/", "U/SS/"]
 
 
 @st.composite
